@@ -490,7 +490,9 @@ def gen_merge(rng, label=None, backup=None, mode=None):
     if rng.random() < 0.3:
         argv += ["-M", rng.choice(["condense_all", "merge_across",
                                    "matrix_merge"])]
-    if rng.random() < 0.3:
+    if rng.random() < (0.6 if label in ("output-exists",
+                                        "backup-without-overwrite",
+                                        "output-dir-missing") else 0.3):
         argv += ["-D", rng.choice(["auto", "yaml", "json"])]
     if rng.random() < 0.15:
         argv += ["-J", rng.choice(["0", "2"])]
@@ -555,7 +557,14 @@ def gen_merge(rng, label=None, backup=None, mode=None):
             inputs.append("-")
     elif label == "multidoc-self-clash":
         del inputs[1:]
-        files[inputs[0]] = "---\nk:\n  a: 1\n---\n- a\n- list\n"
+        files[inputs[0]] = "---\nk:\n  a: 1\n---\n- a\n- list\n" + \
+            rng.choice(["", "", "---\nk:\n  b: 2\n", "---\nz: 9\n"])
+        if rng.random() < 0.3:
+            # ... or the clash sits in a right-hand stream, followed there
+            # by a document that merges without complaint
+            files[inputs[0]] = "---\nk:\n  a: 1\n"
+            inputs.append(W + "in1.yaml")
+            files[inputs[1]] = "---\n- a\n- list\n---\nk:\n  b: 2\n"
         argv = [a for i, a in enumerate(argv)
                 if a != "-M" and (i == 0 or argv[i - 1] != "-M")]
     elif label == "unjsonable-output":
@@ -797,8 +806,15 @@ def gen_rotate(rng, backup=None, peer_faults=None, nsecrets=None,
                 _stale_bak(rng, files, name, files[name])
     if rng.random() < 0.2:
         argv.append(rng.choice(["-v", "-q", "-d"]))
-    argv += ["-r", W + "new_priv.pem", "-u", W + "new_pub.pem",
-             "-i", W + "old_priv.pem", "-c", W + "old_pub.pem"]
+    keys = {"-r": "new_priv.pem", "-u": "new_pub.pem",
+            "-i": "old_priv.pem", "-c": "old_pub.pem"}
+    if repeats is not None and rng.random() < 0.04:
+        # one half of the new pair is the old one: nothing can be rotated
+        # (the tool is expected to refuse)
+        which = rng.choice(["-r", "-u"])
+        keys[which] = keys[which].replace("new_", "old_")
+    argv += ["-r", W + keys["-r"], "-u", W + keys["-u"],
+             "-i", W + keys["-i"], "-c", W + keys["-c"]]
     argv += targets
     if repeats and not peer_faults and rng.random() < 0.15:
         # overlapping globs: one file named twice, maybe spelled differently
